@@ -8,6 +8,7 @@ import (
 	"strconv"
 	"strings"
 	"testing"
+	"verif/lib/hostile"
 
 	"github.com/openconfig/goyang/pkg/yang"
 	"pgregory.net/rapid"
@@ -290,6 +291,65 @@ func checkModule(c Case, o *ev.Outcome) {
 	}
 }
 
+// checkHostile: malformed, contradictory, cyclic or incomplete module sets (the texts C01 feeds on), loaded and
+// processed; whatever is reported, every file:line:col in it is the start of a statement of the file it names.
+func checkHostile(c Case, o *ev.Outcome) {
+	o.Key = fmt.Sprintf("h|%v", c.Files)
+	o.Sample = map[string]any{"kind": "hostile", "generator": c.Fault, "files": c.Files}
+	starts := map[string]bool{}
+	names := map[string]bool{}
+	for _, f := range c.Files {
+		ref := rfc6.Parse(f.Text)
+		if !ref.OK || ref.OutOfClaim != "" {
+			o.OutOfClaim = "hostile text not readable by the reference (syntax faults are the business of the text domain)"
+			return
+		}
+		names[f.Name] = true
+		var walk func(s []*rfc6.Stmt)
+		walk = func(s []*rfc6.Stmt) {
+			for _, x := range s {
+				starts[fmt.Sprintf("%s:%d:%d", f.Name, x.Line, x.Col)] = true
+				walk(x.Subs)
+			}
+		}
+		walk(ref.Stmts)
+	}
+	var all []string
+	if !ev.Guard(o, "load and process", func() {
+		ms := yang.NewModules()
+		for _, f := range c.Files {
+			if err := ms.Parse(f.Text, f.Name); err != nil {
+				all = append(all, err.Error())
+			}
+		}
+		for _, e := range ms.Process() {
+			all = append(all, e.Error())
+		}
+	}) {
+		o.Violations = nil
+		o.OutOfClaim = "panic while loading (C01)"
+		return
+	}
+	o.Class("hostile/" + c.Fault)
+	npos := 0
+	for _, e := range all {
+		for _, m := range anyPos.FindAllStringSubmatch(e, -1) {
+			if !names[m[1]] {
+				continue // not one of the files handed over (a name inside an argument, say)
+			}
+			npos++
+			if !starts[m[0]] {
+				o.Violate("position-is-statement-start", "C16/semantic/hostile/not-a-statement-start", "error %q names %s, which is not the start of a statement of that file", trunc(e, 300), m[0])
+				return
+			}
+		}
+	}
+	o.NonTrivial = npos > 0
+	if npos == 0 {
+		o.OutOfClaim = "no error with a position (nothing to judge)"
+	}
+}
+
 func trunc(s string, n int) string {
 	if len(s) > n {
 		return s[:n]
@@ -303,6 +363,8 @@ func check(c Case) (o ev.Outcome) {
 		checkText(c, &o)
 	case "module":
 		checkModule(c, &o)
+	case "hostile":
+		checkHostile(c, &o)
 	default:
 		o.OutOfClaim = "unknown case kind"
 	}
@@ -554,6 +616,14 @@ func gen(t *rapid.T) Case {
 		files := textgen.ModuleSet(t)
 		ft := render(t, files, false)
 		return Case{Kind: "text", Text: ft[0].Text}
+	case 6: // hostile sets: whatever they make goyang report
+		hostile.MaxChain = 100
+		h := hostile.Gen(t)
+		c := Case{Kind: "hostile", Fault: h.Gen}
+		for _, f := range h.Files {
+			c.Files = append(c.Files, FileText{Name: f.Name, Text: f.Text})
+		}
+		return c
 	default: // one semantic fault
 		files := textgen.ModuleSet(t)
 		if rapid.IntRange(0, 19).Draw(t, "unfaulted") == 0 {
@@ -588,11 +658,13 @@ func TestCheck(t *testing.T) {
 	_ = sort.Strings
 	_ = strconv.Itoa
 	ev.Run(t, ev.Spec[Case]{
-		ID:    "C16",
-		Level: "exploration",
+		ID:        "C16",
+		Level:     "exploration",
+		RiskyCase: func(c Case) bool { return c.Kind != "text" },
 		Rule: "three domains. (1) accepted texts: Statement.Location() of every statement against the keyword position computed by the harness's RFC 7950 section 6 reader (characters, 1-based), on all texts of <= L fragments over the 16-fragment alphabet and on printed forests/modules with tabs, multi-byte characters, comments, multi-line strings and CRLF; " +
 			"(2) rejected texts whose first fault is of a listed kind (unexpected }, missing ; or {, quoted keyword, invalid escape, unterminated quote/comment) and that are single-fault in the sense that goyang's one-token look-ahead cannot meet a second lexical fault first: position in the first error line against the position of the offending token/backslash/opener, exhaustive over the same alphabet plus targeted fault injection into printed texts; " +
-			"(3) generated valid modules (+ included submodule), a quarter of them under file names with percent signs, directories and other odd characters, with one injected semantic fault (unknown substatement, missing mandatory substatement, unknown type, unknown grouping, bad range/length, bad enum value): every file:line:col in every returned error must be the start of a statement of that file and some error must lead with the culprit's position. " +
+			"(3) generated valid modules (+ included submodule), a quarter of them under file names with percent signs, directories and other odd characters, with one injected semantic fault (unknown substatement, missing mandatory substatement, unknown type, unknown grouping, bad range/length, bad enum value): every file:line:col in every returned error must be the start of a statement of that file and some error must lead with the culprit's position; " +
+			"(4) a tenth of the random cases: the malformed, contradictory, cyclic and incomplete module sets that C01 feeds on (mutated valid sets, keyword soup, hostile templates), judged by the first of these two clauses only. " +
 			"Non-trivial = accepted text with >= 2 statements or a statement not at 1:1; any judged rejected text; any module whose fault was reported with a position. Distinct by text / files",
 		Assumptions: []string{
 			"end-of-input reports and cascaded errors after the first line are not judged (property text)",
